@@ -121,7 +121,7 @@ def _module_for(case, repo):
     return f.module if hasattr(f, "module") else f
 
 
-def verify_case(case, repo=None, summaries_lib=None, seed=0):
+def verify_case(case, repo=None, summaries_lib=None, seed=0, scope=None):
     repo = repo or Repo()
     summaries_lib = summaries_lib or {"summaries": {}, "loops": {}}
     res = CaseResult(case.name)
@@ -129,13 +129,15 @@ def verify_case(case, repo=None, summaries_lib=None, seed=0):
     if getattr(case, "ground", None) is not None:
         return verify_ground(case, repo, summaries_lib, res, t0)
     try:
-        eng = make_engine(case, repo, summaries_lib, seed)
+        eng = make_engine(case, repo, summaries_lib, seed, concrete=scope is not None)
+        eng.concrete_mode = scope is not None
         ctxs = []
 
         def run(e):
             e.ctx = {}
             try:
                 S = EngineSource(e)
+                S.scope = scope
                 return run_case_call(case, e, S)
             finally:
                 e.ctx["ghost"] = dict(e.ghost)
